@@ -255,15 +255,12 @@ Lemma clip_norm_bound bound d n : 0 <= n -> n * n == sumsq d -> 0 <= bound ->
   sumsq (clip_delta bound d n) <= bound * bound.
 Proof.
   intros Hn Hs Hb. unfold clip_delta, clip_scale. rewrite sumsq_vscale.
-  destruct (Qeq_bool n 0) eqn:E.
-  - apply Qeq_bool_iff in E. assert (sumsq d == 0) by (rewrite <- Hs, E; ring). rewrite H. nra.
-  - apply Qeq_bool_false_iff in E. assert (P : 0 < n) by (destruct (Qlt_le_dec 0 n); [assumption|exfalso; apply E; lra]).
-    set (s := Qmin 1 (bound / n)).
-    assert (S0 : 0 <= s). { apply Q.min_glb; [lra|]. apply Qle_shift_div_l; lra. }
-    assert (S1 : s * n <= bound).
-    { assert (s <= bound / n) by apply Q.le_min_r.
-      assert (bound / n * n == bound) by (field; lra). nra. }
-    rewrite <- Hs. assert (0 <= s * n) by nra. nra.
+  destruct (Qltb bound n) eqn:E.
+  - apply Qltb_lt in E. assert (P : 0 < n) by lra.
+    assert (S1 : bound / n * n == bound) by (field; lra).
+    rewrite <- Hs. setoid_replace (bound / n * (bound / n) * (n * n)) with ((bound / n * n) * (bound / n * n)) by ring.
+    rewrite S1. lra.
+  - apply Qltb_ge in E. rewrite <- Hs. nra.
 Qed.
 
 Lemma clipped_clients_bounded bound cl : 0 <= bound ->
